@@ -2,19 +2,29 @@
 
 L1: theorems of NfcVerif.Props.C06 about the executable models of
     snep/client.py, snep/server.py, handover/client.py, handover/server.py
-    (state machines cut at the blocking socket calls) running against each
-    other over a reliable ordered message channel.
-L2: the REAL SnepClient/SnepServer/HandoverClient/HandoverServer code runs
-    against each other over harness/sims/snep_chan.py (real nfc.llcp.Socket
-    objects on a fake link controller, two threads in strict lockstep); the
-    messages each side put on its socket, what reached the application
-    callbacks, the client results and the server's end state are compared
-    with the Lean model driver on the same scenario.
+    (state machines cut at the blocking socket calls): delivery over a reliable
+    ordered channel; the same for ANY interleaving and ANY receive windows over
+    a windowed link (confluence, refinement, no discard, no deadlock) with
+    counter-examples for acknowledgements that run ahead of consumption; the
+    handover statement for ndeflib-shaped record lists without prefix
+    hypothesis; the server's limit check against any peer.
+L2: the REAL SnepClient/SnepServer/HandoverClient/HandoverServer code is run and
+    compared with the Lean model driver on the same scenario (messages each
+    side put on its socket, callback arguments, client results, server state):
+    * both parties over harness/sims/snep_chan.py (real nfc.llcp.Socket on a
+      fake link controller, two threads in strict lockstep): random scenarios,
+      fragment boundaries forced onto record boundaries, an exhaustive grid;
+    * each party alone against a hostile peer (any message sequence);
+    * the COMPLETE stack (harness/sims/snep_full.py, props/c06_full.py): two
+      real ContactlessFrontend.connect(llcp=...) calls, real llc / tco / dep, a
+      driver double moving radio frames, deterministic schedules with slow and
+      preempted consumers - compared with the ideal-channel model and, event
+      by event, with the windowed-link model of Model/SnepSched.lean.
 L3: oracle on the same real runs, independent of the model: octets delivered
     == octets sent, exactly once, in order; Reject / ExcessData / BadRequest
-    exactly when specified; nothing above the MIU; nobody hangs.  Thorough
-    tier additionally searches with the complete stack (two real
-    LogicalLinkControllers in threads over an in-memory MAC).
+    exactly when specified; nothing above the MIU; nobody hangs; no I PDU
+    discarded by a full receive queue; what the application got is a prefix of
+    the I PDUs reassembled from the radio frames alone.
 """
 import logging
 import struct
@@ -47,6 +57,7 @@ THEOREMS = [
     "NfcVerif.C06.handover_roundtrip_windowed",
     "NfcVerif.C06.ack_on_receipt_loses_fragment",
     "NfcVerif.C06.ack_all_received_loses_fragment",
+    "NfcVerif.C06.snep_server_limit_any_peer",
 ]
 
 
@@ -638,6 +649,9 @@ def rawsrv_oracle(sc, ob):
         if len(d) >= 6 and int.from_bytes(d[2:6], "big") > lim:
             bad.append(("snep-oversize-request-processed", "a request announcing %d octets (limit %d) reached process_snep_request"
                         % (int.from_bytes(d[2:6], "big"), lim)))
+        if len(d) >= 1 and (d[0] >> 4) > 1:
+            bad.append(("snep-unsupported-version-processed", "a request with version %d.%d reached process_snep_request"
+                        % (d[0] >> 4, d[0] & 15)))
     for k, o in ob["got"]:
         if o and o not in stream:
             bad.append(("snep-delivered-octets-never-sent", "callback got %d octets that are no contiguous part of what the peer sent" % len(o)))
@@ -847,7 +861,7 @@ def guarded(ck, key, what, replay, fn):
 
 
 def section_snep(ck, rng, ndefs, model):
-    n_snep = 30000 if ck.thorough else 2500
+    n_snep = 24000 if ck.thorough else 2200
     lines, reals, scs = [], [], []
     for i in range(n_snep):
         sc = gen_snep(ck, rng, ndefs)
@@ -906,7 +920,7 @@ def section_handover(ck, rng, ndefs, model):
     reset = 1 if pob["raw"] == [r for r, _ in probe["reqs"]] else 0
     ck.notes.append("handover server variant in the tree: %s" % ("buffer reset after each request" if reset else
                                                                  "as found (F29): buffer kept for the whole connection"))
-    n_ho = 12000 if ck.thorough else 1500
+    n_ho = 9000 if ck.thorough else 1400
     lines, reals = [], []
     prefix_reqs, prefix_real = [], []
     enc_lines, enc_real = [], []
@@ -993,7 +1007,7 @@ def section_handover(ck, rng, ndefs, model):
 
 
 def section_raw(ck, rng, ndefs, model, reset):
-    n = 4000 if ck.thorough else 500
+    n = 3000 if ck.thorough else 400
     for name, gen, runner, oracle in (("rawsrv", gen_rawsrv, run_rawsrv, rawsrv_oracle),
                                       ("rawcli", gen_rawcli, run_rawcli, rawcli_oracle),
                                       ("horaw", gen_horaw, lambda sc: run_horaw(sc, reset), None)):
@@ -1074,7 +1088,7 @@ def section_grid(ck, ndefs, model):
 def section_fullstack(ck, rng, ndefs, model, reset):
     """the complete stack under deterministic schedules with slow consumers"""
     from props import c06_full as cf
-    n = 5000 if ck.thorough else 450
+    n = 4000 if ck.thorough else 420
     ideal, ideal_real, win, win_real, descr = [], [], [], [], []
     slow = 0
     for i in range(n):
@@ -1193,7 +1207,5 @@ def run(ck):
     section_fullstack(ck, rng, ndefs, model, reset)
     lap("complete-stack")
     ck.notes.append("wall time per section: " + ", ".join(times))
-    # ---------------------------------------------------------- complete stack with free running threads (search only)
-    if ck.thorough:
-        from sims import snep_stack
-        snep_stack.search(ck, rng, ndefs, runs=40)
+    # (the earlier thorough-tier search with free running threads, sims/snep_stack.py, depended on wall-clock
+    # timeouts; the deterministic complete stack above replaces it)
